@@ -399,7 +399,7 @@ theorem measure_pollTask (P : Params) (e : Entry) (s : St) : measure (pollTask P
       have hT : TaskAt s e.idx tk.prog := ⟨tk, h, rfl, by simpa using hd⟩
       split
       · exact measure_runProg _ _ _ _ _ _ _ hT
-      · have := measure_runProg e.kind e.idx tk.prog P.C s.now s.phase
+      · have := measure_runProg tk.kind e.idx tk.prog P.C s.now s.phase
           (logAt (markPolled s e.idx) e.idx e.ready e.origin) (taskAt_markPolled s e.idx _ hT)
         rw [measure_logAt, measure_markPolled] at this
         exact this
@@ -417,6 +417,8 @@ theorem measure_step (P : Params) (q : Kind) (s : St) (x : Entry × St) (h : pop
   rw [h]
   have h1 := measure_pollTask P e s'
   have h2 := measure_pop P q s s' e h
+  have h3 : measure (noteSilent s' (pollTask P e s')) = measure (pollTask P e s') := by
+    rcases noteSilent_eq s' (pollTask P e s') with h | h <;> rw [h] <;> rfl
   simp only
   omega
 
